@@ -36,7 +36,12 @@ func preload() {
 }
 
 func pickPkg(r *simrt.Rng) *corpus.Pkg {
-	ns := corpusNames()
+	var ns []string
+	for _, n := range corpusNames() {
+		if !corpus.Get(n).HasTag("c15only") {
+			ns = append(ns, n)
+		}
+	}
 	return corpus.Get(ns[r.Intn(len(ns))])
 }
 
